@@ -882,7 +882,11 @@ class DelayedAttr(Delayed):
 
     @property
     def dask(self):
-        layer = {self._key: (getattr, self._obj._key, self._attr)}
+        # Build the task explicitly: in a legacy tuple the attribute name would be
+        # taken for a reference whenever it equals a key of the graph.
+        layer = {
+            self._key: Task(self._key, getattr, TaskRef(self._obj._key), self._attr)
+        }
         return HighLevelGraph.from_collections(
             self._key, layer, dependencies=[self._obj]
         )
